@@ -43,12 +43,24 @@ impl Math<f32> for FastMath {
 
     #[inline(always)]
     fn cmp_min(a: f32, b: f32) -> f32 {
-        a.min(b)
+        // `f32::min` leaves the sign of a zero result unspecified (the compiler may pick either
+        // operand, differently per call site); select explicitly. A NaN operand is ignored.
+        if a.is_nan() || b < a {
+            b
+        } else {
+            a
+        }
     }
 
     #[inline(always)]
     fn cmp_max(a: f32, b: f32) -> f32 {
-        a.max(b)
+        // `f32::max` leaves the sign of a zero result unspecified (the compiler may pick either
+        // operand, differently per call site); select explicitly. A NaN operand is ignored.
+        if a.is_nan() || b > a {
+            b
+        } else {
+            a
+        }
     }
 
     #[inline(always)]
@@ -133,12 +145,24 @@ impl Math<f64> for FastMath {
 
     #[inline(always)]
     fn cmp_min(a: f64, b: f64) -> f64 {
-        a.min(b)
+        // `f64::min` leaves the sign of a zero result unspecified (the compiler may pick either
+        // operand, differently per call site); select explicitly. A NaN operand is ignored.
+        if a.is_nan() || b < a {
+            b
+        } else {
+            a
+        }
     }
 
     #[inline(always)]
     fn cmp_max(a: f64, b: f64) -> f64 {
-        a.max(b)
+        // `f64::max` leaves the sign of a zero result unspecified (the compiler may pick either
+        // operand, differently per call site); select explicitly. A NaN operand is ignored.
+        if a.is_nan() || b > a {
+            b
+        } else {
+            a
+        }
     }
 
     #[inline(always)]
